@@ -12,11 +12,11 @@ _FNAMES = [("lat", "lat"), ("lon", "float"), ("x", "int"), ("y", "float"), ("loc
 def draw_layout(rng, **kw) -> dict:
     """Redraw until the total feature count honours the budget (exact-solver regime, DESIGN 2.7)."""
     mf = kw.get("max_features", 12)
-    for _ in range(50):
-        d = _draw_layout(rng, **kw)
+    for _ in range(400):
+        d = _draw_layout(rng, **{k: v for k, v in kw.items() if k != "min_features"})
         # (fewer than three features is a degenerate family: two standardised features always give the
         #  +-45 degree EOFs, whose sign and rotation are decided by exact ties - no oracle is sound there)
-        if 3 <= gen.n_features_total(d) <= mf:
+        if max(3, kw.get("min_features", 3)) <= gen.n_features_total(d) <= mf:
             return d
     raise RuntimeError("could not draw a layout within the feature budget")
 
@@ -64,10 +64,15 @@ def _draw_layout(rng, *, max_features=12, min_samples=14, max_samples=30, allow_
         fields.append(fd)
     d["fields"] = fields
     d["names"] = rng.choice([["v0", "v1", "v2"], ["sst", "slp", "u"], ["a", "b", "c"]])
-    if container == "list" and rng.random() < 0.06 and max_features >= 11:
-        # a long list: per-item bookkeeping is keyed "0".."10" in the serialised tree ("10" sorts before "2")
-        k = rng.randint(10, 11)
-        d["fields"] = [[[rng.choice(["x", "y", "lev"]), 1, "int"]] for _ in range(k)]
+    if container == "list" and rng.random() < 0.15 and max_features >= 12:
+        # a long list: per-item bookkeeping is keyed "0".."11" in the serialised tree ("10" sorts before "2");
+        # items differ in dimension name, size and coordinate kind so that a mix-up cannot go unnoticed
+        k = 11                      # 11 items, 12 features in total (the feature budget)
+        kinds = {"x": "int", "y": "float", "lev": "int", "loc": "str"}
+        d["fields"] = []
+        for i in range(k):
+            nm = rng.choice(sorted(kinds))
+            d["fields"].append([[nm, 2 if i == 1 else 1, kinds[nm]]])
         d["names"] = [f"item{i}" for i in range(k)]
     # steep spectra keep the mode order robust; flat ones make rotations re-rank modes (sorting bookkeeping)
     d["ratio"] = rng.choice([0.5, 0.6, 0.7, 0.9, 0.95])
@@ -90,12 +95,15 @@ def _draw_layout(rng, *, max_features=12, min_samples=14, max_samples=30, allow_
     if allow_nan and rng.random() < 0.15 and not two_s:
         d["nan_samples"] = rng.randint(1, 2)
     if attrs:
+        def pick():
+            # half of the draws from the hostile part of the catalogue (strings that look like literals)
+            return rng.choice(gen.HOSTILE_ATTRS) if rng.random() < 0.5 else rng.randrange(len(gen.ATTR_CATALOGUE))
         if rng.random() < 0.6:
-            d["attrs"] = rng.randrange(len(gen.ATTR_CATALOGUE))
-        if rng.random() < 0.3:
-            d["coord_attrs"] = rng.randrange(len(gen.ATTR_CATALOGUE))
+            d["attrs"] = pick()
+        if rng.random() < 0.45:
+            d["coord_attrs"] = pick()
         if container == "ds" and rng.random() < 0.4:
-            d["ds_attrs"] = rng.randrange(len(gen.ATTR_CATALOGUE))
+            d["ds_attrs"] = pick()
     if rng.random() < 0.15 and container == "da":
         d["extra_coord"] = True
     if rng.random() < 0.15 and not two_s:
